@@ -496,3 +496,55 @@ def c03_blocklit(R):
                     construct=f"{name}: raw model value compared with a Z3 term",
                 )
     R.need(n >= 2, f"only {n} comparisons of model values found in _batch_eval / _solution")
+
+
+@rule(
+    "C17.condom",
+    props=("C17",),
+    floor=3,
+    family="WHO",
+    desc="every method of BackendZ3 that asks the native solver (calls z3_solver_sat, directly or through a method of the "
+    "class that is not itself guarded) runs inside the Z3 guard `condom`, which turns a z3.Z3Exception into ClaripyZ3Error: "
+    "Z3 reports some resource limits by raising from Solver.check",
+)
+def c17_condom(R):
+    tree = R.tree
+    m = tree.mod(Z3B)
+    cls = tree.cls(Z3B, "BackendZ3")
+    ms = util.methods_of(cls)
+
+    def guarded(fn):
+        return any((isinstance(d, ast.Name) and d.id == "condom") or (isinstance(d, ast.Attribute) and d.attr == "condom") for d in fn.decorator_list)
+
+    asks = {name for name, fn in ms.items() if any(isinstance(c, ast.Call) and isinstance(c.func, ast.Name) and c.func.id == "z3_solver_sat" for c in ast.walk(fn))}
+    n = 0
+    # an unguarded method that asks is fine only if every caller inside the class is guarded
+    callers = {}
+    for name, fn in ms.items():
+        for c in ast.walk(fn):
+            if isinstance(c, ast.Call) and isinstance(c.func, ast.Attribute) and isinstance(c.func.value, ast.Name) and c.func.value.id == "self" and c.func.attr in ms:
+                callers.setdefault(c.func.attr, set()).add(name)
+    for name in sorted(asks):
+        n += 1
+        fn = ms[name]
+        ok = guarded(fn)
+        if not ok:
+            cs = callers.get(name, set())
+            # private helper reached only from guarded methods (never from outside: the Backend base class calls the
+            # underscore methods by name, so anything it may call has to be guarded itself)
+            ok = bool(cs) and all(guarded(ms[c]) for c in cs) and name not in _BACKEND_ENTRY
+        R.check(
+            ok,
+            m,
+            fn,
+            f"BackendZ3.{name} asks the solver inside the guard",
+            f"BackendZ3.{name} calls z3_solver_sat outside the Z3 guard: a z3.Z3Exception raised by Solver.check ('max. memory "
+            f"exceeded') escapes as a foreign exception from satisfiable() / solution() / min() / max() / unsat_core() of every "
+            f"solver class instead of a claripy error",
+            construct=f"{name}: solver asked outside condom",
+        )
+    R.need(n >= 3, f"only {n} methods of BackendZ3 ask the solver")
+
+
+# the underscore methods the Backend base class dispatches to
+_BACKEND_ENTRY = {"_satisfiable", "_solution", "_eval", "_batch_eval", "_min", "_max", "_unsat_core", "_check_satisfiability"}
